@@ -39,6 +39,7 @@ from vsc.model.coverpoint_bin_array_model import CoverpointBinArrayModel
 from vsc.model.coverpoint_model import CoverpointModel
 from vsc.model.expr_array_subscript_model import ExprArraySubscriptModel
 from vsc.model.expr_dynref_model import ExprDynRefModel
+from vsc.model.expr_indexed_dynref_model import ExprIndexedDynRefModel
 from vsc.model.expr_literal_model import ExprLiteralModel
 from vsc.model.expr_unary_model import ExprUnaryModel
 from vsc.model.expr_bin_model import ExprBinModel
@@ -226,7 +227,7 @@ class RandInfoBuilder(ModelVisitor,RandIF):
         if RandInfoBuilder.EN_DEBUG:
             print("--> RandInfoBuilder::visit_constraint_expr")
 
-        if isinstance(c.e, ExprDynRefModel):
+        if isinstance(c.e, (ExprDynRefModel, ExprIndexedDynRefModel)):
             # Don't consider a dynamic-constraint reference to be
             # a full-fledged constraint statement
             c.e.accept(self)
